@@ -48,6 +48,7 @@ type ctrlOp struct {
 	Mode    string          `json:"mode,omitempty"`  // crash: between | before-write | after-write
 	Early   []int           `json:"early,omitempty"` // crash: services whose events arrive before the first full sync
 	PoolPos int             `json:"pool_pos,omitempty"`
+	Settle  bool            `json:"settle,omitempty"` // crash: run the new instance to quiescence at once
 }
 
 type ctrlCase struct {
@@ -181,6 +182,31 @@ func genCtrlCase(rt *rapid.T, o ctrlGenOpts) ctrlCase {
 		case k <= 25 && o.Sched:
 			op.Kind = "step"
 			op.Pick = rapid.IntRange(0, 7).Draw(rt, "pick")
+		case k == 26 && o.Crash && o.Faults && len(cur.Pools) > 0 && len(live) > 1:
+			// scenario: the configuration changes while the controller is down (recorded services need a
+			// write after the restart), writes fail at first, and events race with the first passes
+			n := genCtrlPoolEdit(rt, cur)
+			if rapid.Bool().Draw(rt, "macroRename") {
+				n = vw.ClusterSpec{Namespaces: cur.Namespaces}
+				for _, p := range cur.Pools {
+					q := p
+					q.Name += "r"
+					n.Pools = append(n.Pools, q)
+				}
+			}
+			cur = n
+			c.Ops = append(c.Ops, ctrlOp{Kind: "pools", Cluster: &n})
+			cr := ctrlOp{Kind: "crash", Mode: "between", Perm: genPerm(rt, len(live), "crashPerm"), Fail: rapid.SliceOfN(rapid.Bool(), 1, 3).Draw(rt, "macroFail")}
+			c.Ops = append(c.Ops, cr)
+			for j, m := 0, rapid.IntRange(1, 4).Draw(rt, "macroSteps"); j < m; j++ {
+				if rapid.Bool().Draw(rt, "macroTouch") {
+					u := rapid.IntRange(0, len(live)-1).Draw(rt, "macroSvc")
+					sp := live[u] // an event without a spec change
+					c.Ops = append(c.Ops, ctrlOp{Kind: "event", Svc: u, Spec: &sp})
+				}
+				c.Ops = append(c.Ops, ctrlOp{Kind: "step", Pick: rapid.IntRange(0, 7).Draw(rt, "macroPick")})
+			}
+			op.Kind = "settle"
 		case k <= 27 && o.Crash:
 			op.Kind = "crash"
 			op.Mode = rapid.SampledFrom([]string{"between", "before-write", "after-write"}).Draw(rt, "crashMode")
@@ -191,6 +217,10 @@ func genCtrlCase(rt *rapid.T, o ctrlGenOpts) ctrlCase {
 				}
 			}
 			op.PoolPos = rapid.IntRange(0, len(op.Early)).Draw(rt, "poolPos")
+			op.Settle = rapid.Bool().Draw(rt, "crashSettle")
+			if o.Faults && rapid.IntRange(0, 2).Draw(rt, "crashFail") == 0 {
+				op.Fail = rapid.SliceOfN(rapid.Bool(), 1, 4).Draw(rt, "failAfterRestart")
+			}
 		case k <= 29 && o.Faults:
 			op.Kind = "failwrites"
 			op.Fail = rapid.SliceOfN(rapid.Bool(), 1, 4).Draw(rt, "fail")
@@ -207,7 +237,7 @@ func genCtrlCase(rt *rapid.T, o ctrlGenOpts) ctrlCase {
 
 type crashSentinel struct{}
 
-type judgeSet struct{ C01, C02, C03, C06, C07, C11 bool }
+type judgeSet struct{ C01, C02, C03, C06, C07, C11, Stab bool }
 
 type quiescent struct {
 	addrs map[string][]netip.Addr
@@ -240,6 +270,12 @@ type sim struct {
 	steps   int
 	faulted bool
 	touched map[string]bool // services whose spec was written since the last quiescence snapshot
+	exempt  map[string]bool // victims of a listed known finding since the last quiescence snapshot
+	restartOp     ctrlOp
+	pendingBefore bool
+	sinceRestart  map[string]bool         // services written / made inadmissible since the restart
+	recR    map[string][]netip.Addr // during a restart: the statuses at the crash
+	thefts  map[string]bool         // during a restart: victim -> the service that took its recorded address had a record itself
 }
 
 func (s *sim) setViol(v *vw.Violation) {
@@ -337,6 +373,15 @@ func ipsToAddrs(ips []net.IP) []netip.Addr {
 	return out
 }
 
+func containsAddr(as []netip.Addr, a netip.Addr) bool {
+	for _, x := range as {
+		if x == a {
+			return true
+		}
+	}
+	return false
+}
+
 func addrSetKey(as []netip.Addr) string {
 	var s []string
 	for _, a := range as {
@@ -348,7 +393,7 @@ func addrSetKey(as []netip.Addr) string {
 
 func newSim(cl vw.ClusterSpec, tr *vw.Trace, j judgeSet) *sim {
 	s := &sim{w: vw.NewWorld(), specs: map[string]vw.SvcSpec{}, idx: map[string]int{}, ever: map[string]bool{}, last: map[string]vw.SvcSpec{},
-		writes: map[string]int{}, tr: tr, j: j, touched: map[string]bool{}}
+		writes: map[string]int{}, tr: tr, j: j, touched: map[string]bool{}, exempt: map[string]bool{}}
 	s.cl = cl
 	s.w.SetCluster(cl)
 	s.boot()
@@ -376,6 +421,17 @@ func (s *sim) boot() {
 			res := s.c.SetPools(l, pools)
 			s.ctrlCl = s.cl
 			s.hasCfg = true
+			// a service whose addresses are not admissible under a configuration the controller went
+			// through is no innocent bystander for this settling period, even if a later edit restores them
+			sh := s.statusHolders()
+			for k := range s.specs {
+				if as := s.status(k); len(as) > 0 && !s.admissible(k, as, sh) {
+					s.touched[k] = true
+					if s.sinceRestart != nil {
+						s.sinceRestart[k] = true
+					}
+				}
+			}
 			return res
 		},
 	}
@@ -464,6 +520,22 @@ func (s *sim) afterService(name string, svc *v1.Service, pre vw.Holders, preIPs 
 		s.last[name] = s.specs[name]
 	}
 	now := ipsToAddrs(s.c.ips.IPs(name))
+	if s.recR != nil {
+		for _, a := range now {
+			for o, as := range s.recR {
+				if o == name {
+					continue
+				}
+				for _, b := range as {
+					if a == b && !containsAddr(ipsToAddrs(s.c.ips.IPs(o)), a) && !containsAddr(preIPs, a) {
+						if had := len(s.recR[name]) > 0; had || !s.thefts[o] {
+							s.thefts[o] = had
+						}
+					}
+				}
+			}
+		}
+	}
 	all := s.holders("")
 	shared := false
 	for _, a := range now {
@@ -626,6 +698,9 @@ func (s *sim) update(i int, sp vw.SvcSpec) {
 	sp.NS, sp.Name = old.NS, old.Name
 	s.specs[k] = sp
 	s.touched[k] = true
+	if s.sinceRestart != nil {
+		s.sinceRestart[k] = true
+	}
 	sp.Apply(s.w.ServiceByKey(k), s.idx[k])
 	s.enqueue(k)
 }
@@ -802,6 +877,7 @@ func (s *sim) search(k string, h vw.Holders) (string, bool) {
 }
 
 func (s *sim) atQuiescence(label string) {
+	s.restartJudge()
 	if s.viol != nil || !s.hasCfg {
 		return
 	}
@@ -916,10 +992,10 @@ func (s *sim) atQuiescence(label string) {
 			}
 		}
 	}
-	if s.j.C03 && s.lastQ != nil {
+	if (s.j.C03 || s.j.Stab) && s.lastQ != nil {
 		for k, prev := range s.lastQ.addrs {
 			sp, alive := s.specs[k]
-			if !alive || len(prev) == 0 || s.touched[k] || !reflect.DeepEqual(sp, s.lastQ.specs[k]) {
+			if !alive || len(prev) == 0 || s.touched[k] || s.exempt[k] || !reflect.DeepEqual(sp, s.lastQ.specs[k]) {
 				continue
 			}
 			others := vw.Holders{}
@@ -955,6 +1031,7 @@ func (s *sim) atQuiescence(label string) {
 	}
 	s.lastQ = q
 	s.touched = map[string]bool{}
+	s.exempt = map[string]bool{}
 }
 
 // starveSig classifies a starvation by what changed last for the co-tenants (for the known-findings file).
@@ -1009,8 +1086,15 @@ func (s *sim) restart(op ctrlOp) {
 		R[k] = s.status(k)
 	}
 	pendingBefore := len(s.pending) > 0
+	if s.recR != nil {
+		// a second crash before the first restart was judged: nobody is an innocent bystander in this settling period
+		for k := range s.specs {
+			s.touched[k] = true
+		}
+	}
+	s.recR, s.thefts, s.sinceRestart = R, map[string]bool{}, map[string]bool{}
 	s.crash = ""
-	s.fail = nil
+	s.fail = append([]bool(nil), op.Fail...) // status writes failing during the first passes of the new instance
 	s.boot()
 	s.w.PermuteServices(op.Perm)
 	if len(op.Perm) == len(s.w.Services) {
@@ -1039,10 +1123,23 @@ func (s *sim) restart(op ctrlOp) {
 		s.enqueue(k)
 	}
 	s.enqueue("pool")
-	if !s.settle() || s.viol != nil {
+	// the informer delivers an Add event for every existing service at start-up: the rest arrives after the pool reconcile
+	for _, obj := range s.w.Services {
+		s.enqueue(obj.Namespace + "/" + obj.Name)
+	}
+	s.restartOp = op
+	s.pendingBefore = pendingBefore
+}
+
+// restartJudge runs at the first quiescence after a restart.
+func (s *sim) restartJudge() {
+	R, op, pendingBefore := s.recR, s.restartOp, s.pendingBefore
+	since := s.sinceRestart
+	s.recR, s.sinceRestart = nil, nil
+	if R == nil || s.viol != nil {
 		return
 	}
-	if !s.j.C06 || !s.hasCfg {
+	if !(s.j.C06 || s.j.C03 || s.j.Stab) || !s.hasCfg {
 		return
 	}
 	recordedHolders := vw.Holders{}
@@ -1063,7 +1160,10 @@ func (s *sim) restart(op ctrlOp) {
 		if len(as) == 0 {
 			continue // a theft by a service without record shows up below as the victim's loss (thief-had-recorded-address=false)
 		}
-		if !s.admissible(k, as, recordedHolders) {
+		if since[k] || !s.admissible(k, as, recordedHolders) {
+			continue
+		}
+		if _, alive := s.specs[k]; !alive {
 			continue
 		}
 		now := s.status(k)
@@ -1095,12 +1195,16 @@ func (s *sim) restart(op ctrlOp) {
 			}
 		}
 		sig := "restart-lost:no-thief"
+		if had, seen := s.thefts[k]; seen && thief == "" {
+			thief, thiefHadRecord = "(transient)", had
+		}
 		if thief != "" {
 			sig = fmt.Sprintf("restart-lost:thief-had-recorded-address=%v", thiefHadRecord)
 		}
 		v := vw.Violationf("restart-lost-recorded-address", "%s had %v recorded and still admissible at the crash, after the restart it holds %v (now held by %q; list order %v, early %v)", k, as, now, thief, op.Perm, op.Early).WithSig(sig)
 		if id := vw.KnownID("C06", v); id != "" {
 			s.tr.Known(id)
+			s.exempt[k] = true
 			continue
 		}
 		s.setViol(v)
@@ -1136,6 +1240,10 @@ func runCtrl(c ctrlCase, tr *vw.Trace, j judgeSet) *vw.Violation {
 		case "update":
 			s.update(op.Svc, *op.Spec)
 			tr.Class("service-updated")
+		case "event":
+			if k, ok := s.liveKey(op.Svc); ok { // a watch event without a spec change (metadata touch, periodic resync)
+				s.enqueue(k)
+			}
 		case "delete":
 			if k, ok := s.liveKey(op.Svc); ok && len(s.status(k)) > 0 {
 				tr.Class("release-by-delete")
@@ -1145,7 +1253,9 @@ func runCtrl(c ctrlCase, tr *vw.Trace, j judgeSet) *vw.Violation {
 			s.setCluster(*op.Cluster)
 			tr.Class("pool-edit")
 		case "resync":
-			s.enqueue("reload")
+			if s.hasCfg { // a re-sync request can only originate from a handler, i.e. after the first configuration
+				s.enqueue("reload")
+			}
 		case "step":
 			if len(s.pending) > 0 {
 				crashed = s.process(op.Pick % len(s.pending))
@@ -1156,20 +1266,16 @@ func runCtrl(c ctrlCase, tr *vw.Trace, j judgeSet) *vw.Violation {
 		case "settle":
 			crashed = !quiesce(label)
 		case "crash":
-			switch op.Mode {
-			case "between":
-				tr.Class("crash-between-events")
-				s.restart(op)
-			default:
+			if op.Mode != "between" {
 				s.crash = op.Mode
 				if s.settle() {
 					s.crash = "" // nothing was written: stop here instead
-					tr.Class("crash-between-events")
 				}
-				s.restart(op)
 			}
-			if s.viol == nil {
-				s.atQuiescence(label + " restarted")
+			tr.Class("crash-" + op.Mode)
+			s.restart(op)
+			if op.Settle {
+				crashed = !quiesce(label + " restarted")
 			}
 		}
 		if os.Getenv("VERIF_TRACE") != "" {
@@ -1181,6 +1287,7 @@ func runCtrl(c ctrlCase, tr *vw.Trace, j judgeSet) *vw.Violation {
 		if crashed {
 			// a crash can only come from an armed crash op; be safe
 			s.restart(ctrlOp{Perm: nil})
+			s.settle()
 		}
 	}
 	if s.faulted {
@@ -1215,7 +1322,7 @@ func TestVerifC02Ctrl(t *testing.T) {
 
 func TestVerifC03Ctrl(t *testing.T) {
 	vw.Run(t, vw.Options{Property: "C03", Engine: "controller", Rule: ctrlRule + "; at every quiescence each service whose spec did not change and whose previous addresses are still admissible must hold the same set; two forced re-syncs must write at most once, then never; non-trivial = an unchanged address-holding service was checked after a perturbing event", Assumptions: ctrlAssumptions},
-		func(rt *rapid.T) ctrlCase { return genCtrlCase(rt, ctrlGenOpts{Sched: true}) },
+		func(rt *rapid.T) ctrlCase { return genCtrlCase(rt, ctrlGenOpts{Sched: true, Crash: true, Faults: true}) },
 		func(c ctrlCase, tr *vw.Trace) *vw.Violation {
 			v := runCtrl(c, tr, judgeSet{C03: true})
 			if tr.Has("innocent-bystander-checked") && (tr.Has("service-updated") || tr.Has("pool-edit") || tr.Has("release-by-delete")) {
@@ -1228,7 +1335,7 @@ func TestVerifC03Ctrl(t *testing.T) {
 func TestVerifC06Ctrl(t *testing.T) {
 	vw.Run(t, vw.Options{Property: "C06", Engine: "controller", Rule: ctrlRule + ", crashes (between events, inside a handler just before / just after the status write) followed by a restart with a generated service list order, early events and pool-reconcile position, and finite sequences of failing status writes; non-trivial = crash with recorded and pending services, or recovery from failed writes", Assumptions: ctrlAssumptions},
 		func(rt *rapid.T) ctrlCase { return genCtrlCase(rt, ctrlGenOpts{Sched: true, Crash: true, Faults: true}) },
-		func(c ctrlCase, tr *vw.Trace) *vw.Violation { return runCtrl(c, tr, judgeSet{C06: true, C01: true}) })
+		func(c ctrlCase, tr *vw.Trace) *vw.Violation { return runCtrl(c, tr, judgeSet{C06: true, C01: true, Stab: true}) })
 }
 
 func TestVerifC07Ctrl(t *testing.T) {
@@ -1239,7 +1346,7 @@ func TestVerifC07Ctrl(t *testing.T) {
 
 func TestVerifC11Ctrl(t *testing.T) {
 	vw.Run(t, vw.Options{Property: "C11", Engine: "controller", Rule: ctrlRule + "; at every quiescence the allocator's memory and per-pool counters must equal what the statuses record, for every service that ever existed; non-trivial = an address was released (delete / pool edit) and the run reached quiescence afterwards", Assumptions: ctrlAssumptions},
-		func(rt *rapid.T) ctrlCase { return genCtrlCase(rt, ctrlGenOpts{Sched: true}) },
+		func(rt *rapid.T) ctrlCase { return genCtrlCase(rt, ctrlGenOpts{Sched: true, Faults: true}) },
 		func(c ctrlCase, tr *vw.Trace) *vw.Violation {
 			v := runCtrl(c, tr, judgeSet{C11: true})
 			if tr.Has("release-by-delete") || tr.Has("pool-edit") {
@@ -1254,7 +1361,7 @@ func TestVerifCtrlWitness(t *testing.T) {
 	for _, w := range []struct {
 		prop, test string
 		j          judgeSet
-	}{{"C02", "TestVerifC02Ctrl", judgeSet{C02: true}}, {"C06", "TestVerifC06Ctrl", judgeSet{C06: true, C01: true}}, {"C03", "TestVerifC03Ctrl", judgeSet{C03: true}}, {"C07", "TestVerifC07Ctrl", judgeSet{C07: true}}} {
+	}{{"C02", "TestVerifC02Ctrl", judgeSet{C02: true}}, {"C06", "TestVerifC06Ctrl", judgeSet{C06: true, C01: true, Stab: true}}, {"C03", "TestVerifC03Ctrl", judgeSet{C03: true}}, {"C07", "TestVerifC07Ctrl", judgeSet{C07: true}}} {
 		if p := os.Getenv("VERIF_WITNESS_PROP"); p != "" && p != w.prop {
 			continue
 		}
